@@ -27,6 +27,13 @@ def mixed_program(rng, u, depth=0, allow_pos=True, size=None, macros=None, comme
             c = pp.cmt(" g%d " % u.n)
             c["g"] = True
             items += [a, c, u.tok()]
+        elif r < 0.33 and comments:
+            # a usage that directly abuts the previous token, of a macro whose expansion OPENS with a comment that is
+            # directly followed by a token: the comment is the only separator, through the expansion boundary
+            name = rng.choice(["A", "B", "C"])
+            c = pp.bt("cmt", "/* open%d */" % u.n, g=True)
+            items += [pp.define(name, None, [c, pp.bt("lit", "o%d" % u.n)]), pp.nl(), u.tok(g=True), pp.use(name), u.tok(), pp.nl()]
+            macros[name] = 0
         elif r < 0.36 and comments:
             items.append(pp.cmt(" c%d " % u.n))
         elif r < 0.40 and comments:
